@@ -8,19 +8,19 @@ PROP = dict(
     ],
     bounds="add_correction: every 48-bit seconds / nanos < 1e9 timestamp, corrections |c>>16| < 2^32 ns (quick) and < 2^40 ns = 18 min (thorough, c44_corr_40); convert_to_ntp: every valid wire timestamp; "
            "answer template: Sync + CSPTP response TLV (66 bytes) with concrete first octet (sdoId high nibble 3 + messageType), messageLength and TLV type+length fields, every other byte symbolic",
-    outside="add_correction in-range proof for |correction| >= 2^40 ns (solver time x1.7 per bit: 3 s at 2^32, 230 s at 2^40; the finding harness needs no such proof); convert_to_ntp binary fraction beyond three anchor points (C32 verifies the constructor it calls); the response-collection state machine collect_response itself (matching of domain and sequence id against the pending request, one-step/two-step/follow-up ordering, at-most-once): harnesses c44_collect* (scripted in-memory socket, Waker::noop, reference state machine) are written but NOT registered - CBMC exhausts 8 GB / 25 min during symbolic execution even for a single datagram (the coroutine carries two 512-byte buffers by value); CsptpSource::run (poll timer, rng, socket creation, timeout race, the two handle_measurement calls and the status update `steps_removed + 1`, which overflows in the dev profile for steps_removed = 65535); unstructured (non-template) datagrams reach only Message::deserialize, which C41 covers; "
+    outside="add_correction in-range proof for |correction| >= 2^40 ns (solver time x1.7 per bit: 3 s at 2^32, 230 s at 2^40; ); convert_to_ntp binary fraction beyond three anchor points (C32 verifies the constructor it calls); the response-collection state machine collect_response itself (matching of domain and sequence id against the pending request, one-step/two-step/follow-up ordering, at-most-once): harnesses c44_collect* (scripted in-memory socket, Waker::noop, reference state machine) are written but NOT registered - CBMC exhausts 8 GB / 25 min during symbolic execution even for a single datagram (the coroutine carries two 512-byte buffers by value); CsptpSource::run (poll timer, rng, socket creation, timeout race, the two handle_measurement calls and the status update `steps_removed + 1`, which overflows in the dev profile for steps_removed = 65535); unstructured (non-template) datagrams reach only Message::deserialize, which C41 covers; "
             "more than 3 datagrams per request; timestamps whose nanoseconds field is exactly 10^9 (the wire parser accepts them, Timestamp::new does not: see report)",
     assumptions=[
         "wire timestamps handed to add_correction/convert_to_ntp have nanos < 1e9 (Timestamp::new invariant)",
-        "c44_corr: corrected time lies in [0, 2^48 s) (the complement is the finding harness c44_corr_kf_seconds_out_of_range); |correction| < 2^32 ns in the quick harness",
+        "|correction| < 2^32 ns in the quick harnesses, < 2^40 ns in c44_corr_40 (no assumption on where the corrected time lies)",
         "answer template: nanoseconds fields != 10^9 exactly",
     ],
     stub_notes=["no stubs: harnesses are plain #[kani::proof]"],
     harnesses=[
-        H(ST, "c44", "c44_corr", "add_correction = exact integer arithmetic and does not panic when the corrected time is representable (|correction| < 2^32 ns)"),
+        H(ST, "c44", "c44_corr", "add_correction: no panic for ANY timestamp/correction pair with |correction| < 2^32 ns; nanos < 1e9, seconds < 2^48, result - timestamp = correction exactly (seconds modulo 2^48)"),
         H(ST, "c44", "c44_to_ntp", "convert_to_ntp: epoch shift mod 2^32, fraction at three anchor points, no panic"),
         H(ST, "c44", "c44_accept", "answer template (Sync + response TLV, 66 bytes) through CsptpMessage::deserialize: accepted iff well-formed, classified as response, every field the collection loop uses equals the bytes at its wire offset (652 s)", tier="thorough", timeout=900, timeout_thorough=1800),
-        H(ST, "c44", "c44_corr_40", "add_correction for |correction| < 2^40 ns (18 min)", tier="thorough", timeout_thorough=1800),
-        H(ST, "c44", "c44_corr_kf_seconds_out_of_range", "FINDING (expected to fail until fixed): corrected seconds outside [0, 2^48) panic in add_correction"),
+        H(ST, "c44", "c44_corr_40", "the same for |correction| < 2^40 ns (18 min)", tier="thorough", timeout_thorough=1800),
+        H(ST, "c44", "c44_corr_out_of_range", "regression harness for 0b63ecb: corrected time outside [0, 2^48 s) (|correction| < 2^32 ns): no panic, seconds < 2^48 and result = timestamp + correction modulo 2^48 s (fails on the pre-fix tree)"),
     ],
 )
